@@ -34,6 +34,7 @@ func init() { h.Register("C15", driveC15) }
 
 type c15Req struct {
 	Conn  int       `json:"conn"`
+	Order int       `json:"batch_order,omitempty"` // header Batch Order Option: 0 absent, 1 true, 2 false
 	Opt   int       `json:"option"`
 	Items []c09Item `json:"items"`
 }
@@ -114,7 +115,7 @@ func (l *c15Listener) Addr() net.Addr { return c15Addr{} }
 func c15Key(rid, idx int) int { return rid*1000 + idx }
 
 func c15CaseOf(rq *c15Req) *c09Case {
-	return &c09Case{Sup: c09Sup, Routes: []int{c09OpGet, c09OpActivate}, Ver: [2]int{1, 4}, Opt: rq.Opt, Count: len(rq.Items), Items: rq.Items}
+	return &c09Case{Sup: c09Sup, Routes: []int{c09OpGet, c09OpActivate}, Ver: [2]int{1, 4}, Opt: rq.Opt, Order: rq.Order, Count: len(rq.Items), Items: rq.Items}
 }
 
 // c15Run executes the scenario on the real code under its schedule.
@@ -490,6 +491,9 @@ func c15RandReq(r *h.Rand, rid, conn int, server bool) c15Req {
 		rq.Opt = 2
 	case 1:
 		rq.Opt = 1
+	}
+	if r.Chance(1, 3) {
+		rq.Order = 1 + r.Intn(2) // the placeholder flows from item to item whatever the client says about the order
 	}
 	n := 1 + r.Intn(3)
 	cnt := 0
